@@ -373,6 +373,11 @@ func runC08(e *Env) Outcome {
 		doc, desc, tn, litTemplate = adversarialLiteral(t)
 		sc.Family = "adversarial literal: " + desc + " into " + tn
 		e.Count("fault:huge-exponent-literal", 1)
+	case fam == 7:
+		var desc, tn string
+		doc, desc, tn, litTemplate = adversarialNumberCBE(t)
+		sc.Family = "adversarial number: " + desc + " into " + tn
+		e.Count("fault:huge-exponent-number", 1)
 	case fam <= 1 && f == gen.CBE:
 		doc, sc.Family = adversarialCBE(t)
 		sc.Family = "adversarial header: " + sc.Family
